@@ -119,6 +119,11 @@ form('nest-accessor-target', { ops: ['+='] }, F => `({ get p() { return ${F.s()}
 form('delete-optchain-method', { ops: ['substring'], instr: false }, F => `delete w.o${F.id()}?.s1.substring(1).c`)
 form('delete-optchain-method-plus-arg', { ops: ['substring', '+'], instr: false }, F => `delete w.o${F.id()}?.s1.substring(w.i${F.id()} + 1).c`)
 form('delete-optcall-method', { ops: ['trim'], instr: false }, F => `delete w.o${F.id()}.s1?.trim().x`)
+// parenthesised operands: still references (delete (a?.b.c) deletes). The result of deleting a non-configurable property (false /
+// TypeError in strict code) tells a reference from a value (true)
+form('delete-paren-optchain-method-nonconfigurable', { ops: ['slice'], instr: false }, F => `delete (w.o${F.id()}?.arr1.slice(0).length)`)
+form('delete-paren-method-nonconfigurable', { ops: ['slice'], instr: false }, F => `delete (w.arr${F.id()}.slice(0).length)`)
+form('delete-double-paren-optcall-method-nonconfigurable', { ops: ['concat'], instr: false }, F => `delete ((w.o${F.id()}.arr1?.concat(${F.s()}).length))`)
 form('delete-member-of-method-call', { ops: ['substring'], instr: false }, F => `delete ${F.loc()}.substring(1).c`)
 form('delete-computed-tpl-key', { ops: ['tpl'], instr: false }, F => `delete w.o${F.id()}[\`k\${${F.loc()}}\`]`)
 form('delete-then-plus', { ops: ['+'] }, F => `(delete w.o${F.id()}?.s1.substring(1).c) + ${F.loc()} + ${F.f()}`)
